@@ -6,9 +6,11 @@ package brontide
 
 import (
 	"bytes"
+	"crypto/sha256"
 	"errors"
 	"fmt"
 	"github.com/lightningnetwork/lnd/lnwire"
+	"golang.org/x/crypto/hkdf"
 	"io"
 	"math"
 	"net"
@@ -114,8 +116,12 @@ type noiseSide struct {
 	// they must still hold what was sent after later reads and writes
 	kept    [][]byte
 	keptIdx []int
-	rot     int
-	pre     func(writing bool) func() // duplex arm: marks the role busy for the operation
+	// shadow: the simulator's own BOLT-8 key schedule of this side's send [0]
+	// and receive [1] cipher (chaining key and key), advanced with HKDF at
+	// every rotation it observes
+	shadow [2]keyShadow
+	rot    int
+	pre    func(writing bool) func() // duplex arm: marks the role busy for the operation
 }
 
 func keyFromTape(t *simcore.Tape) *btcec.PrivateKey {
@@ -239,7 +245,7 @@ func noiseRun(r *simcore.Run) {
 		return
 	}
 	if mi.sendCipher.secretKey != mr.recvCipher.secretKey || mi.recvCipher.secretKey != mr.sendCipher.secretKey ||
-		mi.sendCipher.salt != mr.recvCipher.salt || mi.recvCipher.salt != mr.sendCipher.salt {
+		!bytes.Equal(mi.sendCipher.salt[:], mr.recvCipher.salt[:]) || !bytes.Equal(mi.recvCipher.salt[:], mr.sendCipher.salt[:]) {
 		r.Fail("key-mismatch", "after the handshake one side's send key/salt differs from the other's receive key/salt")
 	}
 	if mi.sendCipher.secretKey == mi.recvCipher.secretKey {
@@ -257,6 +263,8 @@ func noiseRun(r *simcore.Run) {
 		return &noiseSide{name: name, m: m, end: e, conn: &Conn{conn: e, noise: m}, used: map[nonceKey]struct{}{}}
 	}
 	sides := [2]*noiseSide{mk("I", mi, wBA, wAB), mk("R", mr, wAB, wBA)}
+	noiseCheckKeys(r, sides[0])
+	noiseCheckKeys(r, sides[1])
 	wires := [2]*simWire{wAB, wBA} // wires[x]: written by side x
 	if arm == "benign-duplex" {
 		installDuplex(r, sides)
@@ -432,6 +440,7 @@ func noiseWrite(r *simcore.Run, s *noiseSide, msg []byte, useConnWrite bool) {
 			r.Fail("nonce-step", "%s: nonce went %d -> %d for one message (key changed=%v)", s.name, before.nonce, after.nonce, after.key != before.key)
 		}
 	}
+	noiseCheckKeys(r, s)
 	s.sent = append(s.sent, append([]byte(nil), msg...))
 	s.frames = append(s.frames, append([]byte(nil), s.end.out.buf[start:]...))
 }
@@ -601,6 +610,7 @@ func noiseReadOne(r *simcore.Run, s, peer *noiseSide) {
 		}
 		s.readIdx++
 		noiseCheckKept(r, s, peer)
+		noiseCheckKeys(r, s)
 	}
 }
 
@@ -772,6 +782,43 @@ func connHandshake(r *simcore.Run, initStatic, respStatic *btcec.PrivateKey, tar
 		return nil, nil, fmt.Errorf("Listener: %w", a.err)
 	}
 	return d.c, a.conn, nil
+}
+
+type keyShadow struct {
+	ck, key [32]byte
+	init    bool
+}
+
+// noiseCheckKeys: BOLT 8 "ck', k' = HKDF(ck, k)" per direction. After every
+// operation both ciphers of the side are compared with the simulator's own
+// schedule: a key changes only by that derivation from ITS OWN direction's
+// chaining key, and a chaining key changes only together with its key (state
+// shared between the two directions would show here at the first rotation,
+// whatever the traffic pattern).
+func noiseCheckKeys(r *simcore.Run, s *noiseSide) {
+	for i, c := range []*cipherState{&s.m.sendCipher, &s.m.recvCipher} {
+		which := [...]string{"send", "receive"}[i]
+		sh := &s.shadow[i]
+		if !sh.init {
+			copy(sh.ck[:], c.salt[:])
+			sh.key, sh.init = c.secretKey, true
+			continue
+		}
+		for n := 0; n < 3 && c.secretKey != sh.key; n++ {
+			h := hkdf.New(sha256.New, sh.key[:], sh.ck[:], nil)
+			var ck, k [32]byte
+			_, _ = io.ReadFull(h, ck[:])
+			_, _ = io.ReadFull(h, k[:])
+			sh.ck, sh.key = ck, k
+			r.Count("key_schedule_rotations_checked")
+		}
+		if c.secretKey != sh.key {
+			r.Fail("key-derivation", "%s: the %s key is not HKDF(ck, k) of that direction's previous chaining key and key (BOLT 8 key rotation)", s.name, which)
+		}
+		if !bytes.Equal(c.salt[:], sh.ck[:]) {
+			r.Fail("key-derivation", "%s: the chaining key of the %s cipher is not the one BOLT 8 prescribes for this direction after its rotations (it changed without a rotation of this direction, or was derived from another direction's state)", s.name, which)
+		}
+	}
 }
 
 // noiseCheckKept: a message that was read correctly stays what it was. The
